@@ -123,6 +123,103 @@ def case_wiring(log, pid, order, mode, thr, its=1, running=False):
     log.path_stats(pm)
 
 
+def case_ome_wiring(log, pid, mode, is_msbar):
+    """OperatorMatrixElement: the coupling is the (nf+1)-flavour one at the matching scale (shifted by xif2 in the exponentiated scheme
+    only) and quad_ker_ome receives the matching order, L, Lsv = ln xif2 and every flag unchanged."""
+    eo = sym_module("eko.evolution_operator")
+    om = sym_module("eko.evolution_operator.operator_matrix_element")
+    import eko.scale_variations as svmod
+    from eko.io.types import ScaleVariationsMethod
+
+    log.encode(om.OperatorMatrixElement.a_s, om.OperatorMatrixElement.quad_ker)
+    rp = (MOD, "replay_ome_wiring", {"mode": mode, "is_msbar": is_msbar})
+    key = "OperatorMatrixElement.wiring:%s" % mode
+    log.register_replay(key, rp, _sampler)
+    tag = "%s, is_msbar=%s" % (mode, is_msbar)
+
+    def Z(x, what):
+        v = prove_zero(Cx.lift(x), "%s [%s]" % (what, tag))
+        log.decide(v, key=key, replay=rp, sampler=_sampler)
+
+    def run():
+        enumv = {"unvaried": None, "exponentiated": ScaleVariationsMethod.EXPONENTIATED, "expanded": ScaleVariationsMethod.EXPANDED}[mode]
+        op = object.__new__(om.OperatorMatrixElement)
+        q2, xi, L = SR.var("q2_from"), SR.var("xif2"), SR.var("Lh")
+        assume(q2, ">0")
+        assume(xi, ">0")
+        op.config = {"xif2": xi, "ModSV": enumv, "matching_order": (2, 0), "polarized": False, "time_like": False}
+        op.q2_from = op.q2_to = q2
+        op.nf, op.L, op.is_msbar, op.order = 4, L, is_msbar, (2, 0)
+        op.backward_method = "token-backward"
+        man = _Obj()
+        man.couplings = _Couplings(False)
+        intd = _Obj()
+        intd.log = True
+        man.interpolator = intd
+        op.managers = man
+        a = op.a_s
+        c = man.couplings.calls
+        if len(c) != 1:
+            raise EngineError("OperatorMatrixElement.a_s made %d coupling calls" % len(c))
+        Z(c[0][1] - (q2 * xi if mode == "exponentiated" else q2), "matching coupling asked at the matching scale (times xif2 in the exponentiated scheme only)")
+        Z(SR(0 if c[0][2] == 5 else 1), "matching coupling asked with nf + 1 flavours")
+        kw = op.quad_ker((200, 200), SR.var("logx"), ("areas",)).keywords
+        c2 = man.couplings.calls[-1]
+        Z(kw["a_s"] - SR.var("as_%d" % (len(man.couplings.calls) - 1)), "quad_ker hands the coupling it asked for to the kernel")
+        Z(c2[1] - c[0][1], "quad_ker asks the coupling at the same scale as a_s")
+        Z(SR(0 if c2[2] == 5 else 1), "quad_ker asks the coupling with nf + 1 flavours")
+        Z(kw["L"] - L, "quad_ker hands L through")
+        Z(kw["Lsv"] - om.np.log(xi), "quad_ker hands Lsv = ln(xif2)")
+        Z(SR(0 if kw["order"] == (2, 0) else 1), "quad_ker hands the matching order")
+        Z(SR(0 if kw["nf"] == 4 else 1), "quad_ker hands nf (flavours below the threshold)")
+        Z(SR(0 if kw["sv_mode"] == svmod.Modes[mode] else 1), "quad_ker hands the scale-variation mode")
+        Z(SR(0 if kw["backward_method"] == "token-backward" else 1), "quad_ker hands the inversion method")
+        Z(SR(0 if kw["is_msbar"] is is_msbar else 1), "quad_ker hands is_msbar")
+        Z(SR(0 if (kw["is_polarized"] is False and kw["is_time_like"] is False and kw["mode0"] == 200 and kw["mode1"] == 200) else 1), "quad_ker hands the polarised / time-like flags and the label")
+        log.twin("domain")
+        log.collect_ctx()
+
+    _r, pm = explore(run)
+    log.path_stats(pm)
+
+
+def replay_ome_wiring(point, mode, is_msbar):
+    import math
+    import importlib
+    from eko.io.types import ScaleVariationsMethod
+    import eko.scale_variations as svmod
+
+    om = importlib.import_module("eko.evolution_operator.operator_matrix_element")
+    q2, xi = float(point.get("q2_from", 20.0)), float(point.get("xif2", 2.0))
+    if not (q2 > 0 and xi > 0 and abs(xi - 1) > 1e-3):
+        return None
+    enumv = {"unvaried": None, "exponentiated": ScaleVariationsMethod.EXPONENTIATED, "expanded": ScaleVariationsMethod.EXPANDED}[mode]
+    calls = []
+
+    class Cp:
+        def a_s(self, scale_to, nf_to=None):
+            calls.append((float(scale_to), nf_to))
+            return 0.021
+
+    op = object.__new__(om.OperatorMatrixElement)
+    op.config = {"xif2": xi, "ModSV": enumv, "matching_order": (2, 0), "polarized": False, "time_like": False}
+    op.q2_from = op.q2_to = q2
+    op.nf, op.L, op.is_msbar, op.order = 4, 0.37, is_msbar, (2, 0)
+    op.backward_method = None
+    man = type("M", (), {})()
+    man.couplings = Cp()
+    man.interpolator = type("I", (), {"log": True})()
+    op.managers = man
+    kw = op.quad_ker((200, 200), -1.0, None).keywords
+    want = q2 * xi if mode == "exponentiated" else q2
+    bad = []
+    if not calls or abs(calls[-1][0] - want) > 1e-9 * want or calls[-1][1] != 5:
+        bad.append("matching coupling asked at %r, documented (scale %r, nf_to 5)" % (calls, want))
+    if abs(kw["Lsv"] - math.log(xi)) > 1e-12 or kw["L"] != 0.37 or kw["order"] != (2, 0) or kw["nf"] != 4 or kw["sv_mode"] != svmod.Modes[mode] or kw["is_msbar"] is not is_msbar or kw["a_s"] != 0.021:
+        bad.append("quad_ker arguments: %r" % {k: kw[k] for k in ("Lsv", "L", "order", "nf", "sv_mode", "is_msbar", "a_s")})
+    return {"detail": "; ".join(bad)} if bad else None
+
+
 class _Stop(Exception):
     pass
 
@@ -234,6 +331,7 @@ def add_cases(chk, pid, thorough, qcd=True):
         for thr in (False, True):
             chk.case("wiring.qcd.%s.thr%d" % (mode, thr), case_wiring, pid=pid, order=(3, 0), mode=mode, thr=thr)
             chk.case("compute.skip.%s.thr%d" % (mode, thr), case_skip, pid=pid, mode=mode, thr=thr)
+        chk.case("wiring.ome.%s" % mode, case_ome_wiring, pid=pid, mode=mode, is_msbar=(mode == "expanded"))
     for its in ((1, 2, 3) if thorough else (2, 3)):
         for running in (True, False):
             chk.case("wiring.qed.its%d.run%d" % (its, running), case_wiring, pid=pid, order=(2, 1), mode="unvaried", thr=False, its=its, running=running)
